@@ -1,9 +1,13 @@
 #!/bin/sh
-# usage: tools/mut.sh <patch.diff> <tier> <prop>...   applies the patch to /repo, runs the checks, reverts.
+# usage: tools/mut.sh <patch.diff> <tier> <prop>...
+# Runs the checks against a scratch copy of /repo with the patch applied (so /repo itself is
+# never left modified and several runs can go on in parallel). Evidence goes to a scratch dir.
 patch="$(realpath "$1")"; tier="$2"; shift 2
-cd /repo && git apply "$patch" || { echo "patch does not apply"; exit 3; }
-trap 'git -C /repo checkout -- . ; git -C /repo clean -fdq' EXIT INT TERM
+work=$(mktemp -d /tmp/mutrepo.XXXXXX)
+trap 'rm -rf "$work"' EXIT INT TERM
+cp -r /repo "$work/repo" && rm -rf "$work/repo/.git" && cd "$work/repo" && git init -q . && git apply "$patch" || { echo "patch does not apply"; exit 3; }
+export VERIF_ROOT=/verif GOFLAGS=-mod=mod GOPROXY=off GOSUMDB=off GOTOOLCHAIN=local
 for p in "$@"; do
-  out=$(cd /verif && VERIF_EVIDENCE_DIR=/tmp/mut-evidence ./check $p $tier 2>&1); rc=$?
-  echo "== $(basename $patch) $p exit=$rc"; echo "$out" | grep -E "VIOLATION|KNOWN-FINDING|ENGINE-ERROR|msg=" | head -8
+  out=$(cd /verif && VERIF_EVIDENCE_DIR="$work/evidence" bin/gosym check $p -tier $tier -repo "$work/repo" 2>&1); rc=$?
+  echo "== $(basename $(dirname $patch))/$(basename $patch) $p exit=$rc"; echo "$out" | grep -E "VIOLATION|KNOWN-FINDING|ENGINE-ERROR|msg=" | head -8
 done
